@@ -17,12 +17,18 @@ def gen_tasks(rng, n_worlds, tier, ops=None, per_world=None, dtypes=None):
         cand = [o for o in names if w["cls"] in catalogue.OPS[o]["classes"] and (not w.get("loops") or o in catalogue.LOOP_SAFE)]
         chosen = cand if per_world is None else rng.sample(cand, min(per_world, len(cand)))
         for o in chosen:
-            args = catalogue.OPS[o]["gen"](rng, w)
-            for dt in (dtypes or [None]):
-                t = {"id": f"w{wi}.{o}" + (f".{dt}" if dt else ""), "world": w, "op": o, "args": args, "group": catalogue.OPS[o]["group"]}
-                if dt:
-                    t["dtype"] = dt
-                tasks.append(t)
+            seen = []
+            for vi in range(catalogue.OPS[o].get("variants", 1)):
+                args = catalogue.OPS[o]["gen"](rng, w)
+                if args in seen:
+                    continue
+                seen.append(args)
+                for dt in (dtypes or [None]):
+                    t = {"id": f"w{wi}.{o}" + (f".v{vi}" if vi else "") + (f".{dt}" if dt else ""), "world": w, "op": o, "args": args,
+                         "group": catalogue.OPS[o]["group"]}
+                    if dt:
+                        t["dtype"] = dt
+                    tasks.append(t)
     return tasks
 
 
